@@ -78,6 +78,43 @@ def matrixRel (kind param : String) (m1 m2 : Nat × List Float) : Bool :=
     | none => false
   else false
 
+def maxCell (m : Nat × List Float) : Float :=
+  m.2.foldl (fun acc x => if x > acc then x else acc) 0.0
+
+/-- pairs of corresponding cells (after the relation's index / scale mapping) -/
+def cellPairs (kind param : String) (m1 m2 : Nat × List Float) : Option (List (Float × Float)) :=
+  if m1.1 != m2.1 then none else
+  let n := m1.1
+  let idx := List.range n
+  let mk (g : Nat → Nat → Float) := some (idx.flatMap fun i => idx.map fun j => (g i j, cellAt m2 i j))
+  if kind == "same" then mk (cellAt m1)
+  else if kind == "scale" then
+    match param.toNat? with
+    | some k => mk fun i j => Float.ofNat k * cellAt m1 i j
+    | none => none
+  else if kind == "rowperm" then
+    match decInts param with
+    | some p =>
+      let p := p.map Int.toNat
+      if p.length == n then mk fun i j => cellAt m1 (p.getD i 0) (p.getD j 0) else none
+    | none => none
+  else none
+
+/-- `""` = the relation holds; `zero-vs-2max` = it fails only in cells where one run has (numerically) zero and
+the other run has its matrix maximum, i.e. the `2·max` substitute of an entry `DistMatrix` took for uncomputable;
+`values` = anything else -/
+def mismatchKind (kind param : String) (m1 m2 : Nat × List Float) : String :=
+  match cellPairs kind param m1 m2 with
+  | none => "shape"
+  | some ps =>
+    let bad := ps.filter fun p => !(approx p.1 p.2)
+    if bad.isEmpty then "" else
+    let scale := if kind == "scale" then (match param.toNat? with | some k => Float.ofNat k | none => 1.0) else 1.0
+    let mx1 := scale * maxCell m1
+    let mx2 := maxCell m2
+    let z (x : Float) : Bool := Float.abs x ≤ 1e-9
+    if bad.all fun p => (z p.1 && p.2 == mx2) || (z p.2 && p.1 == mx1) then "zero-vs-2max" else "values"
+
 /-! ### phasing results -/
 
 structure PRes where
@@ -157,6 +194,8 @@ def handle : Handler := fun op args impl =>
       some ⟨encBool b ++ (if b then "" else " " ++ ",".intercalate (failingPoolRules F)), "na"⟩
     else if pred == "discipline" then some ⟨discStr (disciplineOf F), "na"⟩
     else if pred == "raceLines" then some ⟨raceReportLines F, "na"⟩
+    else if pred == "ownCellLines" then
+      some ⟨",".intercalate ((F.accesses.filter fun a => a.role == .worker && a.indexed && a.ownCell).map fun a => toString a.line), "na"⟩
     else if pred == "inputsUnmodified" then
       let b := inputsUnmodified Gen.Facts.phaseMutCalls
       some ⟨encBool b ++ " calls=" ++ toString Gen.Facts.phaseMutCalls.length, "na"⟩
@@ -185,7 +224,9 @@ def handle : Handler := fun op args impl =>
     match impl.splitOn "|" with
     | [a, b] =>
       match decMatrix a, decMatrix b with
-      | some m1, some m2 => some ⟨"na", verdictOf (matrixRel kind param m1 m2) ("metamorphic-" ++ kind)⟩
+      | some m1, some m2 =>
+        let mk := mismatchKind kind param m1 m2
+        some ⟨"na", if mk == "" then "pass" else "fail:metamorphic-" ++ kind ++ ":" ++ mk⟩
       | _, _ => some ⟨"na", if a.startsWith "err" && b.startsWith "err" then "na" else "fail:metamorphic-" ++ kind ++ "-error-on-one-side"⟩
     | _ => some ⟨"na", "fail:bad-result"⟩
   | "phase", [cpus, tr, rev, ce, code, orfs, seqs, _] => do
@@ -217,7 +258,7 @@ def handle : Handler := fun op args impl =>
           let closedOk := cl == "closed=1"
           let unmodOk := um == "unmod=1"
           let norefExp := if orfs == "_" then "same" else "na"
-          if hasErr || segs.any (fun s => (s.splitOn "ERR").length > 1) then
+          if hasErr || segs.any (fun s => (s.splitOn ",").any (· == "ERR")) then
             -- an alignment error was reported: only the stream and the inputs are constrained
             some ⟨"closed=1 unmod=1 " ++ nr ++ " " ++ sets,
               if !closedOk then "fail:stream-not-closed" else if !unmodOk then "fail:inputs-modified" else "na"⟩
